@@ -290,7 +290,9 @@ impl<T: IoVectoredBuf> IoVectoredBuf for VectoredSlice<T> {
     fn iter_slice(&self) -> impl Iterator<Item = &[u8]> {
         let mut offset = self.offset;
         self.buf.iter_slice().skip(self.idx).map(move |buf| {
-            let ret = &buf[offset..];
+            // A view made by `slice_mut` may start in the uninitialized tail of
+            // this member: then it has no initialized bytes of it.
+            let ret = buf.get(offset..).unwrap_or(&[]);
             offset = 0;
             ret
         })
